@@ -80,6 +80,8 @@ pub struct Runner<'a> {
     /// structure oracle already failed, so that the *consequences* (wrong answers, wrong handles) are observed
     pub pm_left: usize,
     pub in_pm: bool,
+    /// order of the bulk load of the `export-size` suite (0 ascending, 1 descending), if replayable
+    pub bulk_order: Option<i64>,
 }
 
 /// progress counter for the watchdog: bumped at every operation applied to the real code
@@ -122,7 +124,7 @@ impl<'a> Runner<'a> {
             out, coll: coll.to_string(), variant, cap, real: make(coll, cap, variant), refm: RefMap::new(cap),
             twin: None, ops: vec![], hid, emit: true, oracles: true, handles: BTreeMap::new(), dead: false,
             expiring: coll == "key" || coll == "klist", is_list: coll.ends_with("list"), suite: suite.to_string(), last_count: 0, also: None, raw: suite.starts_with("arena") || suite.starts_with("exh-a"),
-            pm_left: std::env::var("VERIF_POSTMORTEM").ok().and_then(|v| v.parse().ok()).unwrap_or(0), in_pm: false,
+            pm_left: std::env::var("VERIF_POSTMORTEM").ok().and_then(|v| v.parse().ok()).unwrap_or(0), in_pm: false, bulk_order: None,
         }
     }
 
@@ -166,6 +168,17 @@ impl<'a> Runner<'a> {
     /// Apply one op. `expect_key`: the key the handle argument is supposed to designate.
     pub fn step(&mut self, op: &Op, expect_key: Option<i64>) -> String {
         if self.dead { return "DEAD".into(); }
+        if op.name == "bulk" {
+            // `bulk n order`: n entries (key k, expiration 10, value k) inserted at time 0, ascending (0) or descending (1)
+            let n = op.a[0];
+            let keys: Vec<i64> = if op.a.get(1) == Some(&1) { (0..n).rev().collect() } else { (0..n).collect() };
+            let (e, o) = (self.emit, self.oracles);
+            self.emit = false; self.oracles = false;
+            for k in keys { let ins = Op::new("insert", &[k, 10, k, 0]); self.step_light(&ins); self.ref_update(&ins, None); if self.dead { break; } }
+            self.emit = e; self.oracles = o;
+            self.ops.push(op.clone());
+            return "ok".into();
+        }
         progress();
         if self.in_pm {
             if self.pm_left == 0 { self.dead = true; return "DEAD".into(); }
@@ -394,7 +407,11 @@ impl<'a> Runner<'a> {
     pub fn step_export_only(&mut self, op: &Op, n: usize) -> String {
         if self.dead { return "DEAD".into(); }
         if self.emit { return self.step(op, None); }
-        self.ops.push(Op::new(&format!("[bulk insert of {} keys] export", n), &op.a));
+        // replayable form: `bulk n order` (the bulk load in ascending / descending key order) followed by the export
+        match self.bulk_order {
+            Some(o) => { self.ops.push(Op::new("bulk", &[n as i64, o])); self.ops.push(op.clone()); }
+            None => self.ops.push(Op::new(&format!("[bulk insert of {} keys in random order] export", n), &op.a)),
+        }
         cb_reset(None, false);
         let real = &mut self.real;
         let res = catch_unwind(AssertUnwindSafe(|| real.apply(op)));
@@ -409,7 +426,7 @@ impl<'a> Runner<'a> {
                 if len != n { self.fail(&["C07"], &format!("export of {} live entries", n), &n.to_string(), &len.to_string()); }
                 format!("len={} cap={}", len, cap)
             }
-            Err(_) => { self.fail(&["C19", "C10"], &format!("export of {} stored entries panicked (allocation?)", n), "a vector", "panic"); "PANIC".into() }
+            Err(_) => { self.fail(&["C19", "C10", "C07"], &format!("export of {} stored entries panicked", n), "a vector", "panic"); "PANIC".into() }
         }
     }
 
